@@ -251,7 +251,8 @@ def main(pid, tier, seed):
             print("DRIFT: %d record(s) disagree with the reference semantics without violating a clause of %s" % (len(drift), pid))
         evidence["violations"] = len(new_viol)
         if new_viol:
-            rp = os.path.join(ctx.work, "replay_%s_%s_%d.json" % (pid, tier, seed))
+            os.makedirs(os.path.join(VERIF, ".work", "replays"), exist_ok=True)
+            rp = os.path.join(VERIF, ".work", "replays", "replay_%s_%s_%d.json" % (pid, tier, seed))
             byinv = collections.Counter(v["invariant"] for v in new_viol)
             with open(rp, "w") as f:
                 json.dump(enc({"property": pid, "tier": tier, "seed": seed, "by_clause": dict(byinv),
